@@ -26,8 +26,8 @@ Local Open Scope Z_scope.
 Definition mutators : list string :=
   [ (* H *)  "putelement"; "startwrite"; "write"; "trunc"; "setlength"; "hlcreate"; "hlconvert"; "hxcreate";
              "hccreate"; "hmccreate"; "dupdd"; "deldd"; "reuse"; "startbitwrite"; "bitwrite";
-    (* V *)  "vsetname"; "vsetclass"; "vaddtagref"; "vinsertvs"; "vinsertvg"; "vdeletetagref"; "vdelete"; "vsetattr";
-    (* VS *) "vswrite"; "vssetname"; "vssetclass"; "vssetattr"; "vsdelete"; "vssetexternalfile"; "vhstoredata";
+    (* V *)  "vsetname"; "vsetclass"; "vaddtagref"; "vinsertvs"; "vinsertvg"; "vdeletetagref"; "vdelete"; "vdeleten"; "vsetattr";
+    (* VS *) "vswrite"; "vssetname"; "vssetclass"; "vssetattr"; "vsdelete"; "vsdeleten"; "vssetexternalfile"; "vhstoredata";
              "vhmakegroup";
     (* SD *) "sdcreate"; "sdwritedata"; "sdsetattr"; "sdsetdimname"; "sdsetdimscale"; "sdsetdimstrs";
              "sdsetdimval_comp"; "sdsetdatastrs"; "sdsetcal"; "sdsetfillvalue"; "sdsetrange"; "sdsetcompress";
@@ -45,6 +45,8 @@ Definition is_mutator (name : string) (args : list Z) : bool :=
   else if String.eqb name "startaccess" then negb (Z.eqb (Z.land (arg args 4) DFACC_WRITE_bit) 0)
   else if String.eqb name "vattach" then Z.eqb (arg args 3) 1
   else if String.eqb name "vsattach" then Z.eqb (arg args 3) 1
+  else if String.eqb name "vattachn" then Z.eqb (arg args 3) 1
+  else if String.eqb name "vsattachn" then Z.eqb (arg args 3) 1
   else false.
 
 (** File-level opens: [hopen F mode ndds] and [sdstart I F mode]; their closes [hclose F] / [sdend I]. *)
